@@ -64,6 +64,17 @@ def gen(chk):
             chains.append(("fail@%d/%s" % (pos, bn), "".join(steps)))
     for a, b in itertools.product(range(len(oks)), repeat=2):
         chains.append(("ok2", oks[a][1] + oks[b][1]))
+    # a step that SUCCEEDS with an error object as its value (errors are plain data once captured)
+    for st in ('.{|x| x.try./(0).err}', '.{|x| [x.try.nope.err]}.{|a| a[0]}', '.{|x| "q".try.{|s| raise ValueErr.new("v")}.A[1]}'):
+        chains.append(("errvalue", st))
+        chains.append(("errvalue", ".+(1)" + st))
+    # keyword arguments of a property-call step must reach the callee
+    for start, st in (('"a,b,c"', '.split(sep: ",")'), ('"a b"', '.split(sep: " ").{|a| a.len}'), ('"ff"', '.I(base: 16)'),
+                      ('"101"', '.I(base: 2).+(1)'), ('"abcdefgh"', '.truncate(5, end: "~")')):
+        chains.append(("kwargs", st, start))
+    # names that Obj itself defines (S, p, keys ...) answer for the Either, not for the wrapped value: recorded finding
+    for st in ('.S(base: 2)', '.p(end: "!")', '.keys'):
+        chains.append(("proxy/shadowed_prop", st))
     for pn, pt in PROXY_STEPS:
         chains.append(("proxy/" + pn, pt))
         chains.append(("proxy/" + pn, ".+(1)" + pt))
@@ -85,8 +96,9 @@ def main(chk):
     chains = gen(chk)
     starts = ["5", "-7"]
     cases = []  # (family, chain, acc or None, program)
-    for ci, (fam, steps) in enumerate(chains):
-        st = starts[ci % 2]
+    for ci, ch in enumerate(chains):
+        fam, steps = ch[0], ch[1]
+        st = ch[2] if len(ch) > 2 else starts[ci % 2]
         cases.append((fam, steps, None, "(%s)%s\n" % (st, steps)))
         for an, at in ACCESSORS:
             cases.append((fam, steps, an, "(%s).try%s%s\n" % (st, steps, at)))
